@@ -85,9 +85,14 @@ double __CPROVER_uninterpreted_hypot(double, double);
 #define wb_hypot __CPROVER_uninterpreted_hypot
 #endif
 
+/* results of the structurally named floating-point symbols (fpx.py) are NaN-canonical: every NaN result is the one
+ * quiet NaN below, so that payload-insensitive equality (SAME) of two computed values implies bit-identity.  The
+ * translated code never inspects NaN payloads and no specification speaks about them. */
+#define WB_CANON(x) ((x) != (x) ? WB_QNAN : (x))
 #define WB_INFINITY (1.0 / 0.0)
-#define WB_QNAN (0.0 / 0.0)
-#define WB_SNAN (0.0 / 0.0)
+static const union { unsigned long u; double d; } wb_qnan_u = { 0x7ff8000000000000ul };
+#define WB_QNAN (wb_qnan_u.d)                  /* the canonical quiet NaN (an lvalue: usable with SAMEL) */
+#define WB_SNAN (wb_qnan_u.d)
 
 static inline int wb_abs_int(int x) { return x < 0 ? -x : x; }
 
@@ -152,6 +157,20 @@ static inline struct wb_string wb_string_empty(void) { struct wb_string r = { 0 
 static inline _Bool wb_string_eq(struct wb_string a, struct wb_string b) { return a.h == b.h; }
 static inline _Bool wb_string_is_empty(struct wb_string a) { return a.h == 0; }
 #endif
+
+/* ---- std::thread(f, first, last): the launch is a ghost event WB_LAUNCH(first,last) defined by the contract file;
+ * a thread object remembers that it must be joined ---- */
+struct wb_lambda { char unused_; };            /* a closure object passed through (never called by translated code) */
+struct wb_thread { _Bool joinable; size_t first; size_t last; };
+#ifndef WB_LAUNCH
+#define WB_LAUNCH(a, b)
+#endif
+#ifndef WB_JOIN
+#define WB_JOIN(t)
+#endif
+static inline struct wb_thread wb_thread_none(void) { struct wb_thread t = { 0, 0, 0 }; return t; }
+static inline struct wb_thread wb_thread_launch(size_t a, size_t b) { struct wb_thread t = { 1, a, b }; WB_LAUNCH(a, b); return t; }
+static inline void wb_thread_join(struct wb_thread *t) { WB_ASSERT(t->joinable, "join of a joinable thread"); WB_JOIN(t); t->joinable = 0; }
 
 /* ---- std::mt19937 and distributions: opaque state ---- */
 struct wb_mt19937 { unsigned long state; };
